@@ -21,6 +21,7 @@ def gen_cases(rng, tier, ctx):
     cs = gen.encoder_cases(rng, tier, n)
     cs += gen.boundary_cases(rng, tier, per_cap=2 if tier == 'quick' else 6)
     cs += gen.constant_cases(rng, tier)
+    cs += gen.limit_cases(rng, tier)
     cs += corpus.encoder_cases()
     cs += gen.prefix_cases(rng, tier)
     # padding sweep
